@@ -68,7 +68,6 @@ structure Exch (α : Type) where
   ended  : Bool := false            -- the HTTP handler returned
   stream : SId := 0                 -- ghost: logical stream this exchange serves
   «from» : Nat := 0                 -- ghost: first log index it is entitled to (resume index + 1)
-deriving Repr
 
 /-- everything the server wrote to the exchange, delivered or not -/
 def Exch.all {α} (e : Exch α) : List (Out α) := e.out ++ e.lost
@@ -107,21 +106,21 @@ deriving DecidableEq, Repr
 
 structure Conn (α : Type) where
   cfg        : Cfg
-  streams    : List (Stream α)
-  reqStreams : List (ReqId × SId)
+  streams    : List (Stream α)                        -- `c.streams` (at most one entry per id)
+  reqStreams : ReqId → Option SId                     -- `c.requestStreams`
   isDone     : Bool
-  store      : List (SId × List (Option (Item α)))
-  exs        : List (Exch α)
+  store      : SId → Option (List (Option (Item α)))  -- abstract event store: the append log per stream
+  exs        : List (Exch α)                          -- HTTP exchanges, index = ExId
   nextSid    : SId
-  hist       : List (SId × List ReqId × Bool)   -- ghost: (stream, its calls, listen) for every registered stream
-deriving Repr
+  hist       : SId → Option (List ReqId × Bool)       -- ghost: (calls, listen) of every registered stream
 
 /-- `Connect`: the standalone stream exists from the start and is opened in the store. -/
 def init {α} (cfg : Cfg) : Conn α :=
   { cfg, streams := [{ id := 0, attached := none, opn := false, next := 0, requests := [], json := none,
                        listen := false, v1125 := false }],
-    reqStreams := [], isDone := false, store := if cfg.hasStore then [(0, [])] else [], exs := [],
-    nextSid := 1, hist := [(0, [], false)] }
+    reqStreams := fun _ => none, isDone := false,
+    store := fun sid => if cfg.hasStore && sid == 0 then some [] else none, exs := [],
+    nextSid := 1, hist := fun sid => if sid == 0 then some ([], false) else none }
 
 inductive Hdr where
   | none | bad | ok (sid : SId) (idx : Nat)
@@ -144,53 +143,28 @@ deriving DecidableEq, Repr
 
 /-! ### helpers -/
 
-def findStream {α} (sid : SId) : List (Stream α) → Option (Stream α)
-  | [] => none
-  | s :: t => if s.id = sid then some s else findStream sid t
+def findStream {α} (sid : SId) (l : List (Stream α)) : Option (Stream α) := l.find? (fun s => s.id == sid)
 
-def setStream {α} (s' : Stream α) : List (Stream α) → List (Stream α)
-  | [] => []
-  | s :: t => if s.id = s'.id then s' :: t else s :: setStream s' t
+/-- `c.streams[s'.id] = s'` -/
+def setStream {α} (s' : Stream α) (l : List (Stream α)) : List (Stream α) :=
+  l.map (fun s => if s.id = s'.id then s' else s)
 
-def delStream {α} (sid : SId) : List (Stream α) → List (Stream α)
-  | [] => []
-  | s :: t => if s.id = sid then t else s :: delStream sid t
+/-- `delete(c.streams, sid)` -/
+def delStream {α} (sid : SId) (l : List (Stream α)) : List (Stream α) := l.filter (fun s => s.id != sid)
 
-def findListen {α} : List (Stream α) → Option (Stream α)
-  | [] => none
-  | s :: t => if s.listen then some s else findListen t
+def findListen {α} (l : List (Stream α)) : Option (Stream α) := l.find? (·.listen)
 
-def lookupReq (r : ReqId) : List (ReqId × SId) → Option SId
-  | [] => none
-  | (r', sid) :: t => if r' = r then some sid else lookupReq r t
-
-def eraseReq (r : ReqId) : List (ReqId × SId) → List (ReqId × SId)
-  | [] => []
-  | (r', sid) :: t => if r' = r then eraseReq r t else (r', sid) :: eraseReq r t
-
-def logOf {α} (sid : SId) : List (SId × List (Option (Item α))) → Option (List (Option (Item α)))
-  | [] => none
-  | (k, l) :: t => if k = sid then some l else logOf sid t
+abbrev Store (α : Type) := SId → Option (List (Option (Item α)))
 
 /-- `EventStore.Open` -/
-def openLog {α} (sid : SId) (st : List (SId × List (Option (Item α)))) : List (SId × List (Option (Item α))) :=
-  match logOf sid st with
-  | some _ => st
-  | none => st ++ [(sid, [])]
-
-def updLog {α} (sid : SId) (x : Option (Item α)) : List (SId × List (Option (Item α))) → List (SId × List (Option (Item α)))
-  | [] => []
-  | (k, l) :: t => if k = sid then (k, l ++ [x]) :: t else (k, l) :: updLog sid x t
+def openLog {α} (sid : SId) (st : Store α) : Store α :=
+  fun k => if k = sid then some ((st sid).getD []) else st k
 
 /-- `EventStore.Append` (creates the stream if it does not exist, as `MemoryEventStore.init` does) -/
-def appendLog {α} (sid : SId) (x : Option (Item α)) (st : List (SId × List (Option (Item α)))) :=
-  updLog sid x (openLog sid st)
+def appendLog {α} (sid : SId) (x : Option (Item α)) (st : Store α) : Store α :=
+  fun k => if k = sid then some ((st sid).getD [] ++ [x]) else st k
 
-def setEx {α} (ex : ExId) (f : Exch α → Exch α) : List (Exch α) → List (Exch α)
-  | [] => []
-  | e :: t => match ex with
-    | 0 => f e :: t
-    | n + 1 => e :: setEx n f t
+def setEx {α} (ex : ExId) (f : Exch α → Exch α) (l : List (Exch α)) : List (Exch α) := l.modify ex f
 
 /-- One `w.Write` on exchange `ex`: delivered unless the writer fails. Returns whether it succeeded. -/
 def emit {α} (c : Conn α) (ex : ExId) (o : Out α) : Conn α × Bool :=
@@ -212,9 +186,8 @@ def dedup : List ReqId → List ReqId
 
 /-! ### CUT (`release` after the request context ended / the handler returned) and WFAIL -/
 
-def release {α} (ex : ExId) : List (Stream α) → List (Stream α)
-  | [] => []
-  | s :: t => (if s.attached = some ex then { s with attached := none, opn := false } else s) :: release ex t
+def release {α} (ex : ExId) (l : List (Stream α)) : List (Stream α) :=
+  l.map (fun s => if s.attached = some ex then { s with attached := none, opn := false } else s)
 
 def cut {α} (c : Conn α) (ex : ExId) : Conn α :=
   finish { c with streams := release ex c.streams } ex
@@ -235,7 +208,7 @@ def post {α} (c : Conn α) (calls : List ReqId) (listen : Bool) (ver : Ver) (bu
     let opens := c.cfg.hasStore && !ver.isNew
     -- `newStream`: draw an id, `EventStore.Open` (before the duplicate check)
     let st1 := if opens then openLog sid c.store else c.store
-    if calls.any (fun r => (lookupReq r c.reqStreams).isSome) then
+    if calls.any (fun r => (c.reqStreams r).isSome) then
       -- duplicate in-flight id: 400, nothing registered (the drawn id stays visible only through Open)
       { c with store := st1, nextSid := sid + 1,
                exs := c.exs ++ [{ kind := .status 400, ended := true, stream := sid }] }
@@ -247,8 +220,9 @@ def post {α} (c : Conn α) (calls : List ReqId) (listen : Bool) (ver : Ver) (bu
                             v1125 := ver.ge1125, calls := calls }
       let e : Exch α := { kind := if useSSE then .sse else .json, budget := budget, stream := sid, «from» := 0 }
       let c2 : Conn α := { c with nextSid := sid + 1, streams := c.streams ++ [s],
-                                  reqStreams := calls.map (fun r => (r, sid)) ++ c.reqStreams,
-                                  exs := c.exs ++ [e], hist := c.hist ++ [(sid, calls, listen)],
+                                  reqStreams := fun r => if r ∈ calls then some sid else c.reqStreams r,
+                                  exs := c.exs ++ [e],
+                                  hist := fun k => if k = sid then some (calls, listen) else c.hist k,
                                   store := if primed then appendLog sid none st1 else st1 }
       let c3 := if primed then (emit c2 ex (.prime sid 0)).1 else c2
       -- publish, then `hangResponse`: on a closed session (`c.done` closed) the handler returns at once
@@ -263,7 +237,7 @@ def route {α} (c : Conn α) (msg : Msg α) (ctx : Option ReqId) : Option (Strea
     | _ => if c.cfg.jsonResponse then none else ctx
   match related with
   | some r =>
-    match lookupReq r c.reqStreams with
+    match c.reqStreams r with
     | some sid => findStream sid c.streams
     | none => none
   | none =>
@@ -279,7 +253,7 @@ def writeR {α} (c : Conn α) (msg : Msg α) (ctx : Option ReqId) (ctxNew : Bool
   if msg.isCall && (c.cfg.stateless || c.cfg.noSession) then (c, .rejected) else
   let tgt := route c msg ctx
   let c1 : Conn α := match msg with
-    | .resp id _ => { c with reqStreams := eraseReq id c.reqStreams }
+    | .resp id _ => { c with reqStreams := fun r => if r = id then none else c.reqStreams r }
     | _ => c
   match tgt with
   | none => (c1, .rejected)                       -- "write to closed stream"
@@ -348,7 +322,7 @@ def get {α} (c : Conn α) (hdr : Hdr) (ver : Ver) (budget : Option Nat) : Conn 
       let replay : Option (List (Item α)) :=
         if c.cfg.hasStore then
           if c.isDone then none                        -- `SessionClosed` removed the session from the store
-          else (logOf sid c.store).map (fun log => toReplay log «from»)
+          else (c.store sid).map (fun log => toReplay log «from»)
         else some []
       match replay with
       | none => fail 400                               -- `After` failed
@@ -371,7 +345,7 @@ def get {α} (c : Conn α) (hdr : Hdr) (ver : Ver) (budget : Option Nat) : Conn 
 /-! ### SCLOSE (`CloseSSEStream` → `stream.close`) and END (`Close`) -/
 
 def sclose {α} (c : Conn α) (req : ReqId) (retry : Bool) : Conn α :=
-  match lookupReq req c.reqStreams with
+  match c.reqStreams req with
   | none => c
   | some sid =>
     match findStream sid c.streams with
